@@ -436,6 +436,121 @@ def run(ctx, ck):
     ok = len(unp) == 1 and len(unp[0].targets[0].elts) == 3
     ck.ob('R-SIB.polarisations', g.qual + '|three-columns', ok, g.loc(unp[0] if unp else None),
           'gain unpacked into 3 columns in stacking order (vertical, horizontal, total)')
+    # ---------------------------------------------------------------- direction vectors
+    # rvec = r_hat + 1j * theta_hat, vv = phi_hat: an orthonormal triad for every direction
+    # (symbolic: polynomial identities in cos/sin of the two angles, sin^2 = 1 - cos^2)
+    from ..poly import Poly, poly_sym, reduce_trig, cancel
+    ck.rule('R-POLY.triad', 'far-field direction vectors (radial, theta, phi) are orthonormal for all angles')
+    integ_f = integ[0] if integ else f
+    ifl = ctx.flow(integ_f)
+    exps = {}
+    for s_ in walk_no_nested(integ_f.node):
+        if isinstance(s_, ast.Assign) and isinstance(s_.targets[0], ast.Name) and \
+           isinstance(s_.value, ast.BinOp) and isinstance(s_.value.op, ast.Pow) and \
+           norm(s_.value.left) == 'np.e':
+            ex = s_.value.right
+            pr_ = product_of(ex)
+            arg = [t for t, x in pr_.num]
+            if len(arg) == 1 and arg[0].endswith('.angle_rad()') and not pr_.den:
+                exps[s_.targets[0].id] = (pr_.coef, arg[0])
+    # names: azimuth -> (c_p, s_p), zenith -> (c_t, s_t);  e^{-j a} = cos a - j sin a
+    trig = {}
+    okexp = True
+    for nm, (coef, arg) in exps.items():
+        which = 'p' if 'azimuth' in arg else ('t' if 'zenith' in arg else None)
+        if which is None or coef not in (-1j, 1j):
+            okexp = False
+            continue
+        sgn = -1 if coef == -1j else 1
+        trig[nm] = (Poly.var('c_' + which), Poly.var('s_' + which) * Poly.const(sgn))
+    ck.ob('R-POLY.triad', integ_f.qual + '|phasors', okexp and len(trig) == 2, integ_f.loc(),
+          'angle phasors %s' % {k: v for k, v in exps.items()})
+    mesh = [s_ for s_ in walk_no_nested(integ_f.node) if isinstance(s_, ast.Assign) and
+            isinstance(s_.value, ast.Call) and (dotted(s_.value.func) or '').endswith('meshgrid') and
+            all(isinstance(a_, ast.Name) and a_.id in trig for a_ in s_.value.args)]
+    alias = {}
+    for s_ in mesh:
+        if isinstance(s_.targets[0], ast.Tuple):
+            for t_, a_ in zip(s_.targets[0].elts, s_.value.args):
+                alias[t_.id] = trig[a_.id]
+    alias.update(trig)
+
+    def resolve(e):
+        if isinstance(e, ast.Attribute) and e.attr in ('real', 'imag') and isinstance(e.value, ast.Name) \
+           and e.value.id in alias:
+            return alias[e.value.id][0 if e.attr == 'real' else 1]
+        return None
+
+    def complex_parts(e):
+        """(real Poly, imag Poly) of  A + 1j*B  /  A - 1j*B  /  a phasor name"""
+        if isinstance(e, ast.Name) and e.id in alias:
+            return alias[e.id]
+        if isinstance(e, ast.BinOp) and isinstance(e.op, (ast.Add, ast.Sub)):
+            sign = 1 if isinstance(e.op, ast.Add) else -1
+            r_ = e.right
+            pr_ = product_of(r_)
+            if pr_.coef in (1j, -1j) and not pr_.den:
+                im = Poly.const(1)
+                for t, x in pr_.num:
+                    im = im * poly_sym(x, {}, resolve)
+                k_ = 1 if pr_.coef == 1j else -1
+                return poly_sym(e.left, {}, resolve), im * Poly.const(sign * k_)
+        return poly_sym(e, {}, resolve), Poly()
+    rv = [s_ for s_ in walk_no_nested(integ_f.node) if isinstance(s_, ast.Assign) and
+          isinstance(s_.targets[0], ast.Name) and isinstance(s_.value, ast.Attribute) and s_.value.attr == 'T'
+          and isinstance(s_.value.value, ast.Call) and (dotted(s_.value.value.func) or '').endswith('array')
+          and isinstance(s_.value.value.args[0], ast.List) and len(s_.value.value.args[0].elts) == 3
+          and any(isinstance(x_, ast.Name) and x_.id in alias for x_ in ast.walk(s_.value))]
+    pairs = [('c_p', 's_p'), ('c_t', 's_t')]
+    if len(rv) == 1 and len(alias) >= 2:
+        try:
+            comps = [complex_parts(e_) for e_ in rv[0].value.value.args[0].elts]
+            R = [c_[0] for c_ in comps]
+            T = [c_[1] for c_ in comps]
+
+            def dot(a_, b_):
+                out = Poly()
+                for x_, y_ in zip(a_, b_):
+                    out = out + x_ * y_
+                return reduce_trig(out, pairs)
+            one = Poly.const(1)
+            zero = Poly()
+            tests = [('|r|^2 = 1', dot(R, R), one), ('|theta|^2 = 1', dot(T, T), one), ('r . theta = 0', dot(R, T), zero)]
+            ct, st_, cp, sp = Poly.var('c_t'), Poly.var('s_t'), Poly.var('c_p'), Poly.var('s_p')
+            std_r = [st_ * cp, st_ * sp, ct]
+            std_t = [ct * cp, ct * sp, -st_]
+            for i_, nm_ in enumerate('xyz'):
+                tests.append(('r_%s = standard spherical unit vector' % nm_, cancel(R[i_]), cancel(std_r[i_])))
+                tests.append(('theta_%s = standard spherical unit vector' % nm_, cancel(T[i_]), cancel(std_t[i_])))
+            vvs = [s_ for s_ in walk_no_nested(f.node) if isinstance(s_, ast.Assign) and
+                   isinstance(s_.value, ast.Attribute) and s_.value.attr == 'T' and
+                   isinstance(s_.value.value, ast.Call) and isinstance(s_.value.value.args[0], ast.List)
+                   and len(s_.value.value.args[0].elts) == 2
+                   and any(isinstance(x_, ast.Name) and x_.id in alias for x_ in ast.walk(s_.value))]
+            if len(vvs) == 1:
+                P = [poly_sym(e_, {}, resolve) for e_ in vvs[0].value.value.args[0].elts] + [Poly()]
+                tests += [('|phi|^2 = 1', dot(P, P), one), ('phi . r = 0', dot(P, R), zero),
+                          ('phi . theta = 0', dot(P, T), zero)]
+                # right-handed: r x theta = phi
+                cx = [R[1] * T[2] - R[2] * T[1], R[2] * T[0] - R[0] * T[2], R[0] * T[1] - R[1] * T[0]]
+                for i_, nm_ in enumerate('xyz'):
+                    tests.append(('(r x theta)_%s = phi_%s' % (nm_, nm_), reduce_trig(cx[i_], pairs), reduce_trig(P[i_], pairs)))
+            for name_, got, want_ in tests:
+                ok_ = cancel(got - want_).t == {}
+                ck.ob('R-POLY.triad', '%s|%s' % (integ_f.qual, name_), ok_, integ_f.loc(rv[0]),
+                      '%s holds identically' % name_ if ok_ else '%s fails: left side is %s' % (name_, got))
+            ck.floor('triad identities', len(tests), 3)
+        except ValueError as e_:
+            raise AnalysisError('direction vector literal not understood: %s' % e_)
+    else:
+        raise AnalysisError('direction vector literal rvec not found (%d candidates)' % len(rv))
+    # the phase uses the radial vector (.real), the polarisation projections theta (.imag) and phi
+    ph = [s_ for s_ in walk_no_nested(integ_f.node) if isinstance(s_, ast.Assign) and 'self.w * np.sum' in norm(s_.value)
+          and '.point' in norm(s_.value) or (isinstance(s_, ast.Assign) and 'self.w * np.sum' in norm(s_.value))]
+    okp = bool(ph) and all('.real' in norm(s_.value) and '.imag' not in norm(s_.value) for s_ in ph)
+    ck.ob('R-POLY.triad', integ_f.qual + '|phase-uses-radial', okp, integ_f.loc(ph[0] if ph else None),
+          'phase factors use the radial unit vector (real part of the direction literal): %d sites' % len(ph))
+
     # a far-field request must not depend on earlier requests: memo sites in the far-field closure
     from .C14 import run_cache_rule
     from ..cache import find_memo_sites
